@@ -236,6 +236,8 @@ func (r *Run) client(label string) *Client {
 // Do executes one action and appends it to the history.
 func (r *Run) Do(a Action) (ok bool) {
 	ok = true
+	// recorded before it is carried out: an action during which the gateway stalls belongs to the history
+	r.Actions = append(r.Actions, a)
 	if r.ActionLog != nil {
 		b, _ := json.Marshal(a)
 		r.ActionLog.Write(append(b, '\n'))
@@ -340,7 +342,6 @@ func (r *Run) Do(a Action) (ok bool) {
 	}
 	r.W.PollHTTP()
 	r.flush()
-	r.Actions = append(r.Actions, a)
 	return ok
 }
 
